@@ -1,5 +1,28 @@
-(* C19 — placeholder until the engine theorems are added below. *)
-From WF Require Import model.Base model.EngineBase model.Engine.
-Theorem C19_emit_dead_silent : forall t s, o_dead s = true -> emit t s = (Ok tt, s).
-Proof. intros t s H. unfold emit. now rewrite H. Qed.
-Print Assumptions C19_emit_dead_silent.
+(* C19 — in-memory streamer. Property theorems only. *)
+From WF Require Import model.Base model.Streams proofs.StreamsProofs.
+
+(* for EVERY interleaving of sends, receiver creations (any name / topic / option), receives, acknowledgements and
+   reconnects in which a name keeps its topic and its StreamFromLatest setting, starting from the empty stream, the model of
+   adapters/memstreamer delivers exactly what the reference stream delivers (pre-filled streams are sequences starting
+   with sends) *)
+Theorem C19_refines : forall ops, mops_ok [] ops = true -> mmem_run mstream0 ops = rref_run rstream0 ops.
+Proof. intros ops H. exact (streams_refine ops mstream0 rstream0 [] strel0 H). Qed.
+Print Assumptions C19_refines.
+
+(* the reference stream: a delivered event is an event of the receiver's topic at or after the committed position ... *)
+Theorem C19_delivery_from_position : forall t l pos idx e, first_from t l 0 pos = Some (idx, e) ->
+  (pos <= idx)%nat /\ (0 <= idx)%nat /\ nth_error l (idx - 0) = Some e /\ fst e = t.
+Proof. intros t l pos idx e H. exact (first_from_ge t l 0 pos idx e H). Qed.
+Print Assumptions C19_delivery_from_position.
+
+(* ... and the first such event: events of a topic are delivered in send order, none skipped *)
+Theorem C19_in_send_order : forall t l pos idx e, first_from t l 0 pos = Some (idx, e) ->
+  forall j x, (pos <= j < idx)%nat -> (0 <= j)%nat -> nth_error l (j - 0) = Some x -> fst x <> t.
+Proof. intros t l pos idx e H. exact (first_from_first t l 0 pos idx e H). Qed.
+Print Assumptions C19_in_send_order.
+
+(* an event received but not acknowledged (the committed position is unchanged) is delivered again, whatever was sent
+   meanwhile, to any receiver of that name *)
+Theorem C19_redelivery_until_ack : forall t l l' pos x, first_from t l 0 pos = Some x -> first_from t (l ++ l') 0 pos = Some x.
+Proof. intros t l l' pos x H. exact (first_from_app t l l' 0 pos x H). Qed.
+Print Assumptions C19_redelivery_until_ack.
